@@ -2,8 +2,8 @@
 import props_config as pc
 
 PROPS = {
-    "C05": pc.grid_prop(50000, 1500000, floors={}),
-    "C10": pc.grid_prop(50000, 1500000, floors={}),
+    "C05": pc.grid_prop(50000, 1500000, size=400, floors={}),
+    "C10": pc.grid_prop(50000, 1500000, size=400, floors={}),
 }
 META = {
     "C05": dict(technique="property-based testing", text="wip", note=pc._TB),
